@@ -923,4 +923,18 @@ theorem parseInt_showInt_pad (n : Int) (p : Nat) (hlo : intMin â‰¤ n) (hhi : n â
     rw [h2, h2']
     exact parseBody_digits_pad _ _ _ (showNat_allDigits _)
 
+/-- the specification of one operation on the insertion-ordered map: an accepted write is `Spec.put`, a removal
+    `Spec.del`, a FITS round trip pads the values, everything else (rejected writes, lookups, typed reads) leaves
+    the map alone -/
+def Spec.apply (m : Store) : Op â†’ Store
+  | .writeStr k v | .writeText k v => if validate k v = none then Spec.put m k v else m
+  | .writeInt k n => if validate k (showInt n) = none then Spec.put m k (showInt n) else m
+  | .remove k => Spec.del m k
+  | .fits => padStore m
+  | _ => m
+
+def isFits : Op â†’ Bool
+  | .fits => true
+  | _ => false
+
 end PsV.Aux
